@@ -1,3 +1,5 @@
+import Zeno.Proofs.LifeCheck
+import Zeno.Gen.Stages
 import Zeno.Proofs.Item
 import Zeno.Gen.Item
 /-!
@@ -92,5 +94,31 @@ theorem c11_d12_counterexample :
 /-- non-vacuity of the hypotheses of `c11_dedupe_keeps_urls` and `c11_complete_iff` -/
 example : (d12Witness.kids.flatten.map (·.id)).Nodup ∧ d12Witness.kids.freshLeaf = true ∧ d12Witness.nwc G = true := by
   decide
+
+/-! ## through the stages themselves
+
+The theorems above are about the single operations of `pkg/models`. `Model/Life.lean` composes the stage models, which perform
+those operations by the hundred; every stage worker runs `CheckConsistency` on the seed it receives and panics when it fails. -/
+
+/-- **No worker's consistency check ever fails on a seed's tree**: started from a consistent tree in start-of-pass shape, the trees
+that `preprocess` hands to the archiver, `archive` to the postprocessor, `postprocess` to the finisher, and the finisher back to
+the reactor all pass `CheckConsistency` — whatever the normaliser, the site and the extractors answer. -/
+theorem c11_stages_hand_on_consistent_trees (cfg : Zeno.Model.Stages.Cfg) (o : Zeno.Model.Life.Oracle) (seen : Zeno.Model.Stages.Seen)
+    (R d : Nat) (t : Tree) (h : Zeno.Model.Life.Start R d t) (hw : t.wp d = true) (hk : t.check G none = none) :
+    let p := Zeno.Model.Stages.preprocess Zeno.Gen.Stages.facts G cfg o.norm seen t
+    let a := Zeno.Model.Stages.archive o.srv p.1
+    let q := Zeno.Model.Stages.postprocess Zeno.Gen.Stages.facts cfg o.ex a
+    p.1.check G none = none ∧ a.check G none = none ∧ q.1.check G none = none ∧
+      (Zeno.Model.Life.pass Zeno.Gen.Stages.facts G cfg o seen t).tree.check G none = none :=
+  Zeno.Model.Life.pass_consistent Zeno.Gen.Stages.facts (by decide) (by decide) G (ok_sets facts_ok) (ok_check facts_ok) cfg o seen h hw hk
+
+/-- … and over a whole life (domains-crawl off): the tree with which the seed finally leaves the pipeline is consistent too. -/
+theorem c11_life_is_consistent (cfg : Zeno.Model.Stages.Cfg) (hdc : cfg.domainsCrawl = false) (os : List Zeno.Model.Life.Oracle)
+    (seen : Zeno.Model.Stages.Seen) (i : Info) (hf : i.st = .fresh) (hr : i.redirects = 0) (hv : i.via = false)
+    (hids : Zeno.Model.Life.idsOK Zeno.Gen.Stages.facts G cfg os seen (.node i .nil) = true) (t' : Tree)
+    (hfin : (Zeno.Model.Life.life Zeno.Gen.Stages.facts G cfg os seen (.node i .nil)).2 = some t') : t'.check G none = none := by
+  refine Zeno.Model.Life.life_consistent Zeno.Gen.Stages.facts (by decide) (by decide) G (ok_sets facts_ok) (ok_check facts_ok) cfg hdc os seen 0 _
+    (Zeno.Model.Life.start_seed cfg.maxRedirect i hf hr) (Zeno.Model.Life.Tree.wp_zero _) ?_ hids t' hfin
+  simp [Tree.check, Forest.length, Forest.check, checkNode, c1, c2, c3, c4, c5, hf, hv, badParent]
 
 end Zeno.Props.C11
